@@ -28,10 +28,28 @@ REC_REVIEWED = {
 }
 
 
+def focus(ctx, P):
+    """Guards that live in a caller of the panic-capable site (R-panic's local tactics cannot see them)."""
+    from rules.common import rdom
+    b = ctx.body('crypto::aead::decryptor::StreamDecryptor::<R>::new_rfc9580')
+    if b is not None:
+        # aead_setup_rfc9580 computes nonce_size() - 8: unsupported AEAD ids (nonce_size 0) must be rejected first
+        rdom(ctx, P + ':focus:aead-setup-after-support-check', b, call_blocks(b, r'aead::aead_setup_rfc9580$'), [r'call:.*AeadAlgorithm::tag_size$'],
+             'new_rfc9580 rejects unsupported AEAD algorithms (tag_size() == None) before aead_setup_rfc9580 uses nonce_size() - 8')
+    b = ctx.body('composed::message::reader::sym_encrypted_protected::SymEncryptedProtectedDataReader::<R>::decrypt')
+    if b is not None:
+        # AeadAlgorithm::decrypt_in_place slices key[..16|24|32]: the key length must have been compared with the cipher's key size
+        sinks = [i for i, t in b.calls(r'replace_with_and_return') ]
+        clos = [r for r in ctx.f.closures_of(b.path) if ctx.wrap(r).calls(r'StreamDecryptor.*::(v2|gnupg_aead)$')]
+        ctx.check(P + ':focus:aead-key-length-checked', 'R-dom', 'the AEAD stream decryptors are built only after session_key.len() == sym_alg.key_size() was checked (C15 S15-2 keylen instances)',
+                  len(guard_switches(b, sinks, [r'call:.*SymmetricKeyAlgorithm::key_size$', r'call:.*len$'])) >= 2 and len(clos) >= 2, function=b.path)
+
+
 def run(ctx):
     P = 'C04'
     r_panic(ctx, P)
     r_rec(ctx, P)
+    focus(ctx, P)
 
 
 def r_panic(ctx, P):
